@@ -91,6 +91,8 @@ def judge_load(part, probe, text_steps, what, budget, expect_cycle=False, entrie
     for n in rng.sample(names, min(6, len(names))):
         if re.fullmatch(r"[A-Za-z_][A-Za-z0-9_]*", n):
             probes += [n, "3 %s" % n, "1 %s -> %s" % (n, n), "units for %s" % n]
+    for sym in sorted(dump.get("symbols", {}))[:3]:
+        probes += ["%s2" % sym, "molar_mass of %s3%s" % (sym, sym), "%s -> kg" % sym]
     probes += ["brokenname + 1", "3 u0 -> u1", "mass of (2 s0)", "s0", "zork", "aa", "bb", "cc", "alias1", "3 aa -> bb", "units for zork",
                "1 zork -> alias1"]
     for s_name in list(dump["substances"])[:3]:
@@ -177,11 +179,24 @@ def gen_file(rng):
             out.append("%s %s" % (name, e))
             units.append(name)
         elif r < 0.45:
-            out.append("p%d%s %s" % (i, rng.choice(["-", "--"]), rng.choice(vals + ["p%d" % rng.randrange(30), "b0", "1 b0"])))
+            pv = rng.choice(vals + ["p%d" % rng.randrange(30), "b0", "1 b0"])
+            if rng.random() < 0.4:
+                # prefix arithmetic: powers (negative, zero, huge), quotients and negations of constants and other prefixes
+                pn = "p%d" % rng.randrange(30)
+                small = ["-1", "0", "2", "-2", "1|2", pn]
+                pv = rng.choice(["%s^%s" % (a, b) for a in ["2", "10", pn, "1|3"] for b in small] +
+                                # huge exponents only where the result stays small
+                                ["%s^%s" % (a, b) for a in ["0", "0.0", "1"] for b in small + ["2147483647", "2147483648", "-2147483648"]] +
+                                ["1|%s" % a for a in ["0", pn]] + ["-" + pn])
+            out.append("p%d%s %s" % (i, rng.choice(["-", "--"]), pv))
         elif r < 0.55:
             out.append("q%d ? %s" % (i, rng.choice([rng.choice(bases), "%s^2" % bases[0], "%s / %s" % (bases[0], bases[-1]),
                                                   "q%d %s" % (rng.randrange(30), bases[0]), "2 %s" % bases[0], "nosuch", "%s^x" % bases[0],
-                                                  "%s^-2" % bases[0], "1", "-%s" % bases[0]])))
+                                                  "%s^-2" % bases[0], "1", "-%s" % bases[0],
+                                                  "(%s^%s)^%s" % (bases[0], rng.choice(["2", "65536", "4611686018427387904", "2147483647"]),
+                                                                  rng.choice(["2", "32768", "-2147483648", "4611686018427387904"])),
+                                                  "%s^%s" % (bases[0], rng.choice(["9223372036854775807", "-9223372036854775808", "2147483648", "1e30", "0"])),
+                                                  "q%d^%s" % (rng.randrange(30), rng.choice(["2", "3037000500", "-65536"]))])))
         elif r < 0.75:
             props = []
             for j in range(rng.randrange(0, 4)):
@@ -197,6 +212,13 @@ def gen_file(rng):
             out.append("s%d {\n%s\n}" % (i, "\n".join(props)))
             if rng.random() < 0.3:
                 out.append("!symbol s%d S%d" % (i, i))
+            if rng.random() < 0.35:
+                # a molar_mass of any value / dimensionality, a chemical symbol, and formulas over it in later definitions
+                sym = "X" + "abcdefghij"[i % 10]
+                out[-1 if not out[-1].startswith("!symbol") else -2] = "s%d {\n%s\n}" % (i, "\n".join(
+                    props + ["    molar_mass const mass %s %s" % (rng.choice(vals), rng.choice(units + ["b0 / b0", "", "b0^2"]))]))
+                out.append("!symbol s%d %s" % (i, sym))
+                out.append("f%d %s" % (i, rng.choice(["%s2", "molar_mass of %s2", "%s%s3", "mass of (2 %s)", "%s0", "%s4294967296", "%s18446744073709551616"]).replace("%s", sym)))
         elif r < 0.82:
             out.append('!category c%d "Cat %d"' % (i, i))
             out.append("cu%d %s" % (i, rng.choice(units)))
